@@ -3,6 +3,7 @@
 From Coq Require Import String ZArith List Bool.
 From FcpV Require Import Base.Bits Schema.Types Wire.Wire Wire.WireProofs Py.PySerde Py.PySerdeProofs.
 From FcpV Require Import Corr.Serde gen.StdVectors.
+From FcpV Require Import Py.BufferLib gen.PyBuffer Py.BufferProofs.
 Import ListNotations.
 Open Scope Z_scope.
 
@@ -66,3 +67,46 @@ Print Assumptions std_vectors_are_canonical.
 
 Example c02_nonvacuous : (10 <= length StdVectors.vectors)%nat.
 Proof. vm_compute. repeat constructor. Qed.
+
+(* ---- the bit buffer of serde.py itself: gen/PyBuffer.v is translated from class _Buffer on every run ---- *)
+
+(* push_word on a buffer holding n written bits appends the m low bits of the word (two's complement for a negative one) and
+   keeps the buffer well-formed: ceil((n+m)/8) bytes, all in 0..255, nothing set beyond the written bits *)
+Theorem buffer_push_word_appends_bits :
+  forall n buf w m, W n buf ->
+    exists buf', py_push_word (mk buf (Z.of_nat n)) w (Z.of_nat m) = POk (mk buf' (Z.of_nat (n + m)), tt) /\
+                 W (n + m) buf' /\ enc_abs buf' (n + m) = enc_abs buf n ++ bits_of_Z m w.
+Proof. exact push_word_refines. Qed.
+Print Assumptions buffer_push_word_appends_bits.
+
+(* a fresh buffer, any sequence of push_word calls, get_buffer(): the bytes are the zero-padded LSB-first packing of the
+   concatenated words - the byte form of the wire model, with no bound on the number or width of the words *)
+Theorem buffer_encode_is_packing :
+  forall ws, exists self, push_all py_init ws = POk self /\
+             exists self', py_get_buffer self = POk (self', bytes_of_bits (word_bits ws)).
+Proof. exact encode_bytes. Qed.
+Print Assumptions buffer_encode_is_packing.
+
+(* read_word at bit cursor a is the wire model's read_word on the unread bits, overrun included *)
+Theorem buffer_read_word_is_wire_read :
+  forall buf a m,
+    py_read_word (mk buf (Z.of_nat a)) (Z.of_nat m) =
+    match Wire.read_word m (unread buf a) with
+    | Ok (z, rest) => POk (mk buf (Z.of_nat (a + m)), z)
+    | Raise _ => PRaise PyValueError
+    end
+    /\ (forall z rest, Wire.read_word m (unread buf a) = Ok (z, rest) -> rest = unread buf (a + m)).
+Proof. exact read_word_refines. Qed.
+Print Assumptions buffer_read_word_is_wire_read.
+
+(* decode() starts from the bits of the input bytes *)
+Theorem buffer_decode_starts_from_input_bits :
+  forall data, Forall byte_ok data ->
+    exists self, py_push_bytes py_init data = POk (self, tt) /\ b_buffer self = data /\
+                 unread (b_buffer (set_bitaddr self 0)) 0 = bits_of_bytes data.
+Proof. exact decode_init. Qed.
+Print Assumptions buffer_decode_starts_from_input_bits.
+
+Example c02_buffer_nonvacuous :
+  W 0 [] /\ (exists self u, py_push_word py_init (-3) 5 = POk (self, u) /\ py_get_buffer self = POk (self, [29])).
+Proof. split; [exact W_init|]. eexists. eexists. split; vm_compute; reflexivity. Qed.
